@@ -88,6 +88,221 @@ class _ChainsToMatch(ast.NodeTransformer):
         return ast.copy_location(ast.Match(subject=subject, cases=cases), node)
 
 
+class _TablesToMatch:
+    """Table-driven dispatch reads as the equivalent match statement.  A dispatch table is a dict display with constant keys that is bound
+    once (module level `T = {...}`, or `self.t = {...}` in __init__) and never written afterwards.  A simple statement S that CALLS the
+    looked-up value - `T[k](...)`, `T.get(k, d)(...)`, or `v(...)` after `v = T[k]` / `v = T.get(k, d)` with v used for nothing else - becomes
+        match k:  case K1 | K2: S[callee := value of K1]  ...  case _: S[callee := d]
+    (for `T[k]` without default the last arm keeps the original statement, unless an enclosing `match k` arm already restricts k to keys of T)."""
+
+    def __init__(self, tree):
+        self.tree = tree
+        self.mod_tables = {}
+        writes = set()
+        for st in tree.body:
+            tgt, val = self._single_target(st)
+            if isinstance(tgt, ast.Name) and self._is_table(val):
+                self.mod_tables[tgt.id] = (val, st)
+        for n in ast.walk(tree):
+            t = self._written(n)
+            if t:
+                writes.add(t)
+        binds = {}
+        for n in ast.walk(tree):
+            if isinstance(n, (ast.Assign, ast.AnnAssign, ast.AugAssign)):
+                for t in (n.targets if isinstance(n, ast.Assign) else [n.target]):
+                    if isinstance(t, ast.Name):
+                        binds[t.id] = binds.get(t.id, 0) + 1
+        self.mod_tables = {k: v for k, v in self.mod_tables.items() if k not in writes and binds.get(k, 0) == 1}
+
+    @staticmethod
+    def _single_target(st):
+        if isinstance(st, ast.Assign) and len(st.targets) == 1:
+            return st.targets[0], st.value
+        if isinstance(st, ast.AnnAssign) and st.value is not None:
+            return st.target, st.value
+        return None, None
+
+    @staticmethod
+    def _is_table(v):
+        return isinstance(v, ast.Dict) and len(v.keys) >= 2 and all(isinstance(k, ast.Constant) for k in v.keys) \
+            and all(isinstance(x, (ast.Name, ast.Attribute)) for x in v.values)
+
+    @staticmethod
+    def _written(n):
+        """text of a container that node n mutates (subscript store / delete, mutator call)"""
+        if isinstance(n, ast.Subscript) and isinstance(n.ctx, (ast.Store, ast.Del)):
+            return ast.unparse(n.value)
+        if isinstance(n, ast.Call) and isinstance(n.func, ast.Attribute) and n.func.attr in ("update", "pop", "popitem", "clear", "setdefault", "__setitem__", "__delitem__"):
+            return ast.unparse(n.func.value)
+        return None
+
+    def run(self):
+        for c in ast.walk(self.tree):
+            if isinstance(c, ast.ClassDef):
+                self._class(c)
+        for f in self.tree.body:
+            if isinstance(f, ast.FunctionDef):
+                self._function(f, dict(self.mod_tables_text()))
+
+    def mod_tables_text(self):
+        return {k: v[0] for k, v in self.mod_tables.items()}
+
+    def _class(self, c):
+        tables = dict(self.mod_tables_text())
+        init = next((m for m in c.body if isinstance(m, ast.FunctionDef) and m.name == "__init__"), None)
+        stores = {}
+        for m in c.body:
+            if isinstance(m, ast.FunctionDef):
+                for n in ast.walk(m):
+                    if isinstance(n, ast.Attribute) and isinstance(n.ctx, (ast.Store, ast.Del)) and isinstance(n.value, ast.Name):
+                        stores[n.attr] = stores.get(n.attr, 0) + 1
+        written = {self._written(n) for n in ast.walk(c)} - {None}
+        if init is not None and init.args.args:
+            me = init.args.args[0].arg
+            for st in init.body:
+                tgt, val = self._single_target(st)
+                if isinstance(tgt, ast.Attribute) and isinstance(tgt.value, ast.Name) and tgt.value.id == me and self._is_table(val) \
+                        and stores.get(tgt.attr) == 1 and f"{me}.{tgt.attr}" not in written:
+                    tables[f"{me}.{tgt.attr}"] = val
+        for m in c.body:
+            if isinstance(m, ast.FunctionDef) and m is not init:
+                self._function(m, tables)
+
+    # ---- one function ----------------------------------------------------------
+    def _lookup(self, e, tables):
+        """(table display, key expression, default expression or None, has_default) when e is T[k] / T.get(k[, d])"""
+        if isinstance(e, ast.Subscript) and ast.unparse(e.value) in tables and isinstance(e.slice, (ast.Name, ast.Attribute)):
+            return tables[ast.unparse(e.value)], e.slice, None, False
+        if isinstance(e, ast.Call) and isinstance(e.func, ast.Attribute) and e.func.attr == "get" and ast.unparse(e.func.value) in tables \
+                and not e.keywords and len(e.args) in (1, 2) and isinstance(e.args[0], (ast.Name, ast.Attribute)):
+            if len(e.args) == 2 and isinstance(e.args[1], (ast.Name, ast.Attribute)):
+                return tables[ast.unparse(e.func.value)], e.args[0], e.args[1], True
+        return None
+
+    def _function(self, fn, tables):
+        if not tables:
+            return
+        # v = T[k] / T.get(k, d), v bound once and only ever called
+        self.vars = {}
+        binds, uses = {}, {}
+        for n in ast.walk(fn):
+            if isinstance(n, ast.Name):
+                (binds if isinstance(n.ctx, ast.Store) else uses).setdefault(n.id, []).append(n)
+        call_funcs = {id(n.func) for n in ast.walk(fn) if isinstance(n, ast.Call)}
+        self.drop = set()
+        for n in ast.walk(fn):
+            tgt, val = self._single_target(n) if isinstance(n, ast.stmt) else (None, None)
+            if isinstance(tgt, ast.Name) and val is not None:
+                lk = self._lookup(val, tables)
+                if lk and len(binds.get(tgt.id, [])) == 1 and uses.get(tgt.id) and all(id(u) in call_funcs for u in uses[tgt.id]):
+                    key_names = {x.id for x in ast.walk(lk[1]) if isinstance(x, ast.Name)}
+                    if all(len(binds.get(k, [])) <= 1 for k in key_names):
+                        self.vars[tgt.id] = lk
+                        self.drop.add(id(n))
+        self.tables = tables
+        self._block_owner(fn, [])
+
+    def _block_owner(self, node, ctx):
+        for field in ("body", "orelse", "finalbody"):
+            b = getattr(node, field, None)
+            if isinstance(b, list) and b and isinstance(b[0], ast.stmt):
+                setattr(node, field, self._block(b, ctx))
+        for h in getattr(node, "handlers", []) or []:
+            h.body = self._block(h.body, ctx)
+        if isinstance(node, ast.Match):
+            subj = ast.unparse(node.subject)
+            for c in node.cases:
+                keys = self._pattern_keys(c.pattern)
+                c.body = self._block(c.body, ctx + ([(subj, keys)] if keys is not None else []))
+
+    @staticmethod
+    def _pattern_keys(p):
+        pats = p.patterns if isinstance(p, ast.MatchOr) else [p]
+        if all(isinstance(x, ast.MatchValue) and isinstance(x.value, ast.Constant) for x in pats):
+            return {x.value.value for x in pats}
+        return None
+
+    def _block(self, stmts, ctx):
+        out = []
+        for st in stmts:
+            if id(st) in self.drop:
+                continue
+            if isinstance(st, (ast.Return, ast.Assign, ast.AnnAssign, ast.AugAssign, ast.Expr)):
+                out.append(self._simple(st, ctx))
+            else:
+                if not isinstance(st, (ast.FunctionDef, ast.ClassDef)):
+                    self._block_owner(st, ctx)
+                out.append(st)
+        return out
+
+    def _simple(self, st, ctx):
+        sites = []
+        for n in ast.walk(st):
+            if isinstance(n, ast.Call):
+                lk = self.vars.get(n.func.id) if isinstance(n.func, ast.Name) else self._lookup(n.func, self.tables)
+                if lk:
+                    sites.append((n, lk))
+        if len(sites) != 1:
+            return st
+        call, (table, key, default, has_default) = sites[0]
+        keytext = ast.unparse(key)
+        restrict = None
+        for subj, keys in ctx:
+            if subj == keytext:
+                restrict = keys if restrict is None else restrict & keys
+        groups = {}
+        for k, v in zip(table.keys, table.values):
+            if restrict is not None and k.value not in restrict:
+                continue
+            groups.setdefault(ast.unparse(v), (v, []))[1].append(k)
+        import copy
+        cases = []
+
+        def arm(func_expr):
+            old = call.func
+            call.func = func_expr
+            try:
+                return copy.deepcopy(st)
+            finally:
+                call.func = old
+        for _txt, (v, ks) in groups.items():
+            pats = [ast.MatchValue(value=copy.deepcopy(k)) for k in ks]
+            cases.append(ast.match_case(pattern=pats[0] if len(pats) == 1 else ast.MatchOr(patterns=pats), guard=None, body=[arm(copy.deepcopy(v))]))
+        covered = restrict is not None and restrict <= {k.value for k in table.keys}
+        if not covered:
+            if has_default:
+                cases.append(ast.match_case(pattern=ast.MatchAs(pattern=None, name=None), guard=None, body=[arm(copy.deepcopy(default))]))
+            else:
+                orig = copy.deepcopy(st)
+                if isinstance(call.func, ast.Name):      # v(...) with v = T[k]: keep the look-up visible
+                    return st
+                cases.append(ast.match_case(pattern=ast.MatchAs(pattern=None, name=None), guard=None, body=[orig]))
+        if not cases:
+            return st
+        m = ast.Match(subject=copy.deepcopy(key), cases=cases)
+        ast.copy_location(m, st)
+        for c in cases:
+            for b in c.body:
+                ast.copy_location(b, st)
+        return m
+
+
+def _static_to_method(tree):
+    """`@staticmethod def m(a, b)` in a class reads as `def m(self, a, b)`: whether a helper that does not use its instance is declared static
+    is no difference in behaviour for calls made through an instance, and every engine can rely on parameter 0 being the receiver."""
+    for c in ast.walk(tree):
+        if not isinstance(c, ast.ClassDef):
+            continue
+        for m in c.body:
+            if isinstance(m, ast.FunctionDef) and any(isinstance(d, ast.Name) and d.id == "staticmethod" for d in m.decorator_list):
+                used = {a.arg for a in m.args.posonlyargs + m.args.args + m.args.kwonlyargs} | {n.id for n in ast.walk(m) if isinstance(n, ast.Name)}
+                name = "self" if "self" not in used else "__self"
+                m.decorator_list = [d for d in m.decorator_list if not (isinstance(d, ast.Name) and d.id == "staticmethod")]
+                m.args.args.insert(0, ast.arg(arg=name, annotation=None, lineno=m.lineno, col_offset=m.col_offset, end_lineno=m.lineno, end_col_offset=m.col_offset))
+                m._was_static = True  # type: ignore[attr-defined]
+
+
 class Module:
     def __init__(self, name, path, src=None):
         self.name = name
@@ -102,6 +317,8 @@ class Module:
         except SyntaxError as e:  # the tree must at least compile
             raise AnalysisError(f"{path} does not parse: {e}")
         self.tree = _ChainsToMatch().visit(self.tree)     # one normal form for dispatch on a value: `if x == A: .. elif x == B: .. else: ..` (3+ arms) reads as match/case
+        _static_to_method(self.tree)
+        _TablesToMatch(self.tree).run()
         ast.fix_missing_locations(self.tree)
         self.classes: dict[str, ast.ClassDef] = {}
         self.functions: dict[str, ast.FunctionDef] = {}
@@ -166,6 +383,27 @@ def all_modules() -> list[Module]:
 
 def unparse(node) -> str:
     return " ".join(ast.unparse(node).split())
+
+
+def positional_args(call, fn, bound=True):
+    """The argument expressions of `call` in the parameter order of the FunctionDef `fn` (None where the parameter keeps its default), whether
+    they were passed by position or by keyword; `bound`: the call goes through an instance/class (the first parameter of a plain method is
+    implicit).  None when the call uses * / ** or does not fit the signature."""
+    params = [a.arg for a in fn.args.posonlyargs + fn.args.args]
+    static = any(isinstance(d, ast.Name) and d.id == "staticmethod" for d in fn.decorator_list)    # (not normalised by _static_to_method)
+    if bound and not static and params:
+        params = params[1:]
+    kwonly = [a.arg for a in fn.args.kwonlyargs]
+    if any(isinstance(a, ast.Starred) for a in call.args) or any(k.arg is None for k in call.keywords) or len(call.args) > len(params):
+        return None
+    out = dict.fromkeys(params + kwonly)
+    for p, a in zip(params, call.args):
+        out[p] = a
+    for k in call.keywords:
+        if k.arg not in out or out[k.arg] is not None:
+            return None
+        out[k.arg] = k.value
+    return [out[p] for p in params + kwonly]
 
 
 def enclosing_function(node):
